@@ -1,6 +1,79 @@
-(** C39 -- placeholder while the pipeline is brought up *)
-From Coq Require Import NArith ZArith.
-From TLV Require Import Rpc.RpcModel.
-Open Scope N_scope.
-Example C39_ex_take : req_take 4096 100 = 4096%Z.
+(** C39 -- the RPC server enforces worker and request-memory limits.  (partial)
+
+    PROVED: the worker pool of pkg/rpc/server_workerpool.go (Get / Put / GC / Close) and the request memory
+    accounting of pkg/rpc/server.go (acquireRequestSema before a request is read and handled, releaseRequestBuf
+    after; a counting semaphore used only through TryAcquire / Acquire / Release), transcribed in Rpc/RpcModel.v,
+    for ALL operation sequences.
+    NOT proved (observed by the concurrent bursts): goroutines, condition variables, the real semaphore
+    (internal/vkgo/pkg/semaphore, property C42), handlers that run outside the pool (SyncHandler, MaxWorkers = 0).
+    Property theorems only; each is closed by [exact] of a lemma of Rpc/RpcAdmProofs.v. *)
+From Coq Require Import NArith ZArith List Bool.
+From TLV Require Import Rpc.RpcModel Rpc.RpcAdmProofs.
+Import ListNotations.
+Open Scope Z_scope.
+
+(** worker limit: after any sequence of Get / Put / GC / Close (Put only of workers handed out by Get, as
+    server.go does), the workers handed out -- an upper bound of the handlers running on pool workers -- are
+    at most [created], and [created] is at most max(1, MaxWorkers). *)
+Theorem C39_worker_limit : forall dur create ops s, ws_run dur (ws_init create) ops = Some s ->
+  Z.of_nat (length (ws_busy s)) <= wp_created (ws_pool s) /\
+  wp_created (ws_pool s) <= wp_create (ws_pool s) /\
+  wp_create (ws_pool s) = Z.max 1 create.
+Proof. exact worker_limit. Qed.
+Print Assumptions C39_worker_limit.
+
+(** excess load waits: Get blocks exactly when the pool is open, no worker is free and the limit is reached. *)
+Theorem C39_get_waits_iff : forall t, snd (wp_get t) = GWait <->
+  wp_closed t = false /\ wp_free t = [] /\ wp_create t <= wp_created t.
+Proof. exact get_waits_iff. Qed.
+Print Assumptions C39_get_waits_iff.
+
+(** ... and it does not wait for ever: a Put on an open pool lets the next Get through. *)
+Theorem C39_put_enables_get : forall t w now dur, wp_closed t = false ->
+  snd (wp_get (fst (wp_put t w now dur))) <> GWait.
+Proof. exact put_enables_get. Qed.
+Print Assumptions C39_put_enables_get.
+
+(** memory limit: after any sequence of request arrivals, releases and cancelled waits, the accounted request
+    memory equals the sum of max(body length, RequestBufSize) over the admitted requests, lies in [0, limit],
+    and no admitted request is larger than the limit. *)
+Theorem C39_memory_limit : forall limit buf ops a, 0 <= limit -> adm_run (adm_init limit buf) ops = Some a ->
+  sm_cur (ad_sem a) = sum_held (ad_held a) /\ 0 <= sm_cur (ad_sem a) <= limit /\
+  (forall id n, In (id, n) (ad_held a) -> 0 <= n <= limit) /\ sm_size (ad_sem a) = limit.
+Proof. exact memory_limit. Qed.
+Print Assumptions C39_memory_limit.
+
+(** releasing what an admitted request holds never panics ("semaphore: released more than held"). *)
+Theorem C39_release_never_panics : forall limit buf ops a id n, 0 <= limit ->
+  adm_run (adm_init limit buf) ops = Some a -> find id (ad_held a) = Some n ->
+  adm_step a (ARelease id) <> None.
+Proof. exact release_never_panics. Qed.
+Print Assumptions C39_release_never_panics.
+
+(** Non-vacuity. *)
+(* limit 2: two workers created, the third Get waits; after a Put the next Get reuses the worker *)
+Example C39_ex_pool :
+  match ws_run 60000 (ws_init 2) [WGet; WGet; WGet; WPut 1 1000; WGet] with
+  | Some s => wp_created (ws_pool s) = 2 /\ ws_busy s = [1%N; 2%N] /\ wp_free (ws_pool s) = []
+  | None => False
+  end.
+Proof. vm_compute. auto. Qed.
+Example C39_ex_pool_waits : snd (wp_get (ws_pool (match ws_run 60000 (ws_init 2) [WGet; WGet] with Some s => s | None => ws_init 0 end))) = GWait.
 Proof. vm_compute. reflexivity. Qed.
+(* MaxWorkers = 0 still gives a pool of one worker (workerPoolNew) *)
+Example C39_ex_pool_min : wp_create (wp_new 0) = 1.
+Proof. vm_compute. reflexivity. Qed.
+
+(* limit 10000, RequestBufSize 4096: 100-byte and 5000-byte requests are admitted (4096 + 5000), a 3000-byte one
+   waits, a 20000-byte one is never admitted; releasing the first admits the waiter *)
+Example C39_ex_memory :
+  match adm_run (adm_init 10000 4096) [AArrive 1 100; AArrive 2 5000; AArrive 3 3000; AArrive 4 20000; ARelease 1] with
+  | Some a => sm_cur (ad_sem a) = 9096 /\ ad_held a = [(2%N, 5000); (3%N, 4096)] /\ sm_wait (ad_sem a) = []
+  | None => False
+  end.
+Proof. vm_compute. auto. Qed.
+
+(* with the default RequestBufSize (regenerated from server.go on every run) a 100-byte request accounts for a whole buffer *)
+Example C39_ex_default_buf :
+  req_take (Z.of_N rpc_DefaultServerRequestBufSize) 100 = Z.max 100 (Z.of_N rpc_DefaultServerRequestBufSize).
+Proof. reflexivity. Qed.
